@@ -192,6 +192,14 @@ def binop(ip, op, a, b):
                 return SV(x % y if op is ast.Mod else x / y, 'int')
             return SV(simp(py_mod(x, y) if op is ast.Mod else py_div(x, y)), 'int')
         if st.merge:
+            # contract code: when the path already knows the divisor to be positive, the plain SMT mod/div is Python's
+            # (keeps specification terms syntactically equal to what the code computes)
+            cache = st.ghost.setdefault('posdiv_cache', {})
+            key = (y.get_id(), len(st.pc))
+            if key not in cache:
+                cache[key] = not st.feasible(y <= 0)
+            if cache[key]:
+                return SV(x % y if op is ast.Mod else x / y, 'int')
             return SV(py_mod(x, y) if op is ast.Mod else py_div(x, y), 'int')
         if st.branch(y == 0, "divisor == 0"):
             ip.raise_(ZeroDivisionError)
@@ -797,7 +805,7 @@ def _meta_index(ip, items, i):
             res = ite(ip, z3.Or(iv == k, iv == k - n), items[k], res)
         return res
     if n > 64:
-        u = st.unique_value(iv, force=True)      # a dispatch table indexed by a value the path pins (hybrid case enumeration)
+        u = st.unique_value(iv, force=True, light=True)      # a dispatch table indexed by a value the path pins (hybrid case enumeration)
         if u is not None:
             if -n <= u < n:
                 return items[u]
